@@ -69,6 +69,7 @@ def session(rng):
                 s.pub(c, k, ch + b"x/", b"m")
         else:
             s.sub(c, rng.choice(["KX", "KA"]), chan(rng))
+    s.ops.append("saltspread c1 %s 12" % rng.choice(["KM", "KM", "KA", "KME"]))
     s.dump()
     return s.ops
 
